@@ -33,7 +33,7 @@ BUDGET = {
     'thorough': dict(examples=2000, time_s=3300, shrink=True, shrink_cap_s=240),
 }
 
-SAMPLE_KINDS = ['ok_mef', 'ok_rfi', 'ok_float', 'ok_float2', 'missing', 'small', 'gf_neg', 'gf_big', 'bad_units', 'beads_failed',
+SAMPLE_KINDS = ['ok_mef', 'ok_rfi', 'ok_float', 'ok_float2', 'missing', 'small', 'gf_neg', 'gf_big', 'gf_just_above', 'gf_just_below', 'bad_units', 'beads_failed',
                 'no_curve', 'other_instrument', 'other_amp', 'other_volt']
 HEALTHY = ('ok_mef', 'ok_rfi', 'ok_float', 'ok_float2')
 BEAD_KINDS = ['ok', 'missing', 'small', 'gf_neg', 'gf_big', 'unequal_mef']
@@ -93,6 +93,10 @@ def sample_row(kind, sid):
         r.update(gate_fraction=-0.1)
     elif kind == 'gf_big':
         r.update(gate_fraction=1.5)
+    elif kind == 'gf_just_above':
+        r.update(gate_fraction=1.000004)
+    elif kind == 'gf_just_below':
+        r.update(gate_fraction=-4e-9)
     elif kind == 'bad_units':
         r.update(units={'FL1-H': 'furlongs'})
     elif kind == 'beads_failed':
@@ -150,13 +154,19 @@ def check_samples(kinds, seed, obs):
             obs.claim('row_error', isinstance(got, xl.ExcelUIException),
                       lambda: 'table %r: faulty row %s (%s) gave %r instead of a row-level error' % (kinds, sid, kind, type(got)))
     # notes, statistics, histogram rows
+    if len(kinds) % 2 == 0:
+        # the table may already carry result columns (a previous output workbook used as input again)
+        t['Analysis Notes'] = 'stale note'
+        t['Number of Events'] = 12345
+        for c_ in ('FL1-H Mean', 'FL1-H Median', 'FL2-H CV', 'FL1-H Geom. Mean'):
+            t[c_] = 777.0
     with warnings.catch_warnings():
         warnings.simplefilter('ignore')
         r = call(xl.add_samples_stats, t, res)
         h = call(xl.generate_histograms_table, t, res) if not raised(r) else r
     if not obs.claim('no_abort', not raised(r) and not raised(h), lambda: 'table %r: statistics/histograms aborted with %r / %r' % (kinds, r, h)):
         return
-    stat_cols = [c for c in t.columns if c.split(' ')[-1] in ('Mean', 'Median', 'Mode', 'Std', 'CV', 'IQR', 'RCV')]
+    stat_cols = [c for c in t.columns if c.split(' ')[-1] in ('Mean', 'Median', 'Mode', 'Std', 'CV', 'IQR', 'RCV')]   # incl. Geom.
     hist_ids = set(i[0] for i in h.index)
     for sid, kind in zip(ids, kinds):
         note = t.loc[sid, 'Analysis Notes']
